@@ -2,7 +2,7 @@
 # try_seed.sh <seed-dir-or-patch> <Cnn> [check args]: run a check against a scratch worktree of /repo HEAD
 # with the seeded change applied. Never touches /repo's working tree or the committed evidence.
 src=$1; prop=$2; shift 2
-[ -d "$src" ] && patch=$src/patch.diff || patch=$src
+if [ -d "$src" ]; then patch=$src/patch.diff; [ -f $src/patch.ported.diff ] && patch=$src/patch.ported.diff; else patch=$src; fi
 tag=$(basename $(dirname $(readlink -f $patch)))-$prop-$$
 wt=/tmp/try-wt-$tag
 out=/tmp/try-out-$tag
